@@ -125,7 +125,10 @@ def main():
                 sh("git -C /repo checkout -- .")
     # record
     dst = f"/verif/seeded/{prop}-{variant}"
-    if os.environ.get("SEEDED_ROUND3"):
+    if os.environ.get("SEEDED_ROUND4"):
+        # fourth round: A -> G, B -> H
+        dst = f"/verif/seeded/{prop}-{chr(ord(variant) + 6)}"
+    elif os.environ.get("SEEDED_ROUND3"):
         # third round: A -> E, B -> F
         dst = f"/verif/seeded/{prop}-{chr(ord(variant) + 4)}"
     elif os.path.exists(dst) and os.environ.get("SEEDED_ROUND2"):
